@@ -115,6 +115,9 @@ class Program:
                     return args[0]
                 if name in ("Borrow::borrow", "AsRef::as_ref") and len(args) == 1:
                     return args[0]
+                if name == "Option::unwrap_or" and len(args) == 2 and args[1] == ("int", 0) and args[0][0] == "call" \
+                        and args[0][1] == "usize::checked_sub":
+                    return ("call", "usize::saturating_sub", args[0][2])
                 acc = self.accessor(name) if name.startswith("crate::") else None
                 if acc is not None:
                     abody, term = acc
